@@ -198,6 +198,16 @@ func (a *w3Analysis) run() {
 	for i := range a.h.written {
 		writtenByID[a.h.written[i].ID] = &a.h.written[i]
 	}
+	if a.prop == "C27" {
+		twice := make([]string, 0, len(a.h.twice))
+		for name := range a.h.twice {
+			twice = append(twice, name)
+		}
+		sort.Strings(twice)
+		for _, name := range twice {
+			a.violate("C27", "segment-overwritten", "the recorder created segment %s twice: two consecutive segments got the same start time, the second creation truncated the file of the first, whose media is lost", name)
+		}
+	}
 	switch a.prop {
 	case "C27":
 		a.finalChecks(files, writtenByID)
@@ -291,7 +301,11 @@ func (a *w3Analysis) finalChecks(files []*w3File, written map[int64]*w3Written) 
 		if prev != nil && prev.init != nil && len(prev.parts) > 0 {
 			pe := a.epochOf(prev, written)
 			ce := a.epochOf(f, written)
-			if pe >= 0 && pe == ce {
+			// (a file the recorder created twice holds the later of two segments: its
+			// neighbours are not consecutive any more; that is reported as segment-overwritten)
+			// "one stream" = one recorder instance: a write error (maximum part size) or a jump of
+			// absolute time makes the server start a new instance, whose segments are a new stream
+			if pe >= 0 && pe == ce && a.h.segInst[prev.name] == a.h.segInst[f.name] && !a.h.twice[prev.name] && !a.h.twice[f.name] {
 				ok := a.realConcatenable(prev, f)
 				if !ok {
 					a.violate("C27", "not-continuous", "segments %s and %s were recorded back to back from one stream but are not recognised as continuous", prev.name, f.name)
@@ -334,7 +348,10 @@ func (a *w3Analysis) realConcatenable(p, c *w3File) bool {
 	// the independent expectation: the next segment starts where the previous one ends, within one sample
 	gap := ca.start.Sub(pa.end)
 	tol := time.Duration(a.h.b.FrameMs+a.h.b.AudioMs) * time.Millisecond
-	if gap < -tol || gap > tol {
+	// (only a hole is flagged: when one track reaches the recorder later than the other, the next
+	// segment begins with the late track's pending samples and overlaps the end of the previous one;
+	// the statement does not exclude that, and what it costs /get is C29's known finding)
+	if gap > tol {
 		a.violate("C27", "gap-between-segments", "segment %s starts %s after the end of %s (more than one sample)", c.name, gap, p.name)
 	}
 	return segmentFMP4CanBeConcatenated(pi, pa.end, ci, ca.start)
